@@ -4,7 +4,7 @@ PRELUDE = """#![allow(unused, dead_code, unused_mut, unused_variables, unused_im
 use generic_array::functional::*;
 use generic_array::sequence::*;
 use generic_array::typenum::*;
-use generic_array::{arr, ConstArrayLength, GenericArray, GenericArrayIter, IntoArrayLength};
+use generic_array::{arr, ArrayLength, ConstArrayLength, GenericArray, GenericArrayIter, IntoArrayLength};
 fn touch<X>(_x: X) {}
 """
 
@@ -137,7 +137,35 @@ def borrow_program(d):
     return PRELUDE + "fn main() {\n    " + body + "\n}\n"
 
 
+# trait-level length relations: inside a GENERIC function only the bounds the traits declare are known, so
+# `same(..)` type-checks exactly when the relation is declared; the twin asserts a relation nobody declares
+SAME = "fn same<X>(_: core::marker::PhantomData<X>, _: core::marker::PhantomData<X>) {}\nuse core::marker::PhantomData as P;\nuse core::ops::{Mul, Div};\n"
+GENERIC = {
+    # relation: (generic function with the true witness, with a false witness)
+    "sequence_same_length": ("fn g<S: GenericSequence<u8>>() { same(P::<<S::Sequence as GenericSequence<u8>>::Length>, P::<%s>); }",
+                             "S::Length", "U3"),
+    "mapped_same_length": ("fn g<S: MappedGenericSequence<u8, u16>>() { same(P::<<S::Mapped as GenericSequence<u16>>::Length>, P::<%s>); }",
+                           "S::Length", "U3"),
+    "lengthen_then_shorten": ("fn g<A: Lengthen<u8>>() { same(P::<<A::Longer as Shorten<u8>>::Shorter>, P::<%s>); }", "A", "A::Longer"),
+    "shorten_then_lengthen": ("fn g<A: Shorten<u8>>() { same(P::<<A::Shorter as Lengthen<u8>>::Longer>, P::<%s>); }", "A", "A::Shorter"),
+    "lengthen_roundtrip_values": ("fn g<A: Lengthen<u8>>(a: A) -> %s { let (init, _last) = a.append(1).pop_back(); init }", "A", "A::Longer"),
+    "shorten_roundtrip_values": ("fn g<A: Shorten<u8>>(a: A) -> %s { let (init, last) = a.pop_back(); init.append(last) }", "A", "A::Shorter"),
+    "concat_rest_length": ("fn g<M: ArrayLength, A: Concat<u8, M>>() { same(P::<<A::Rest as GenericSequence<u8>>::Length>, P::<%s>); }", "M", "A::Length"),
+    "flatten_source_length": ("fn g<N: ArrayLength + Mul<M>, M: ArrayLength, S: Flatten<u8, N, M>>() where Prod<N, M>: ArrayLength { same(P::<<S as GenericSequence<GenericArray<u8, N>>>::Length>, P::<%s>); }", "M", "N"),
+    "flatten_output_length": ("fn g<N: ArrayLength + Mul<M>, M: ArrayLength, S: Flatten<u8, N, M>>() where Prod<N, M>: ArrayLength { same(P::<<S::Output as GenericSequence<u8>>::Length>, P::<%s>); }", "Prod<N, M>", "M"),
+    "unflatten_source_length": ("fn g<NM: ArrayLength + Div<N>, N: ArrayLength, S: Unflatten<u8, NM, N>>() where Quot<NM, N>: ArrayLength { same(P::<<S as GenericSequence<u8>>::Length>, P::<%s>); }", "NM", "N"),
+    "unflatten_output_length": ("fn g<NM: ArrayLength + Div<N>, N: ArrayLength, S: Unflatten<u8, NM, N>>() where Quot<NM, N>: ArrayLength { same(P::<<S::Output as GenericSequence<GenericArray<u8, N>>>::Length>, P::<%s>); }", "Quot<NM, N>", "NM"),
+}
+
+
+def generic_program(d):
+    tmpl, true_w, false_w = GENERIC[d["rel"]]
+    return PRELUDE + SAME + (tmpl % (true_w if d["twin"] else false_w)) + "\nfn main() {}\n"
+
+
 def program(d):
+    if d["kind"] == "generic":
+        return generic_program(d)
     if d["kind"] == "len":
         return len_program(d)
     if d["kind"] == "trait":
